@@ -385,7 +385,7 @@ func checkC20(c CaseC20, info *Info) *Failure {
 	if e := j2x.JsonToXmlWriter(jb, &w); !eqErr(e, wxerr) || (e == nil && !bytes.Equal(w.Bytes(), wx)) {
 		return mism("j2x.JsonToXmlWriter", w.String(), string(wx))
 	}
-	if jr, x, e := j2x.JsonReaderToXml(bytes.NewReader(jb)); !eqErr(e, wxerr) || (e == nil && !bytes.Equal(x, wx)) || !bytes.Equal(jr, stripWS(jb)) {
+	if jr, x, e := j2x.JsonReaderToXml(bytes.NewReader(jb)); !eqErr(e, wxerr) || (e == nil && !bytes.Equal(x, wx)) || !bytes.Equal(stripWS(jr), stripWS(jb)) {
 		return mism("j2x.JsonReaderToXml", string(jr)+" / "+string(x), string(jb)+" / "+string(wx))
 	}
 	w.Reset()
